@@ -33,6 +33,8 @@ class RoundTrip(Oracle):
             "bundle_defaults": rng.random() < 0.7,
             "steer_f11b": rng.random() < 0.5,
             "p_foreign_type": rng.choice([0.0, 0.5]),
+            "p_roundtrip_derived": rng.choice([0.0, 0.3]),
+            "p_subfactory": rng.choice([0.0, 0.3]),
             "odd_locals": rng.random() < 0.3,
         }
 
